@@ -28,6 +28,7 @@ def parseEv (s : String) : Option Ev :=
   | 'G' :: r => (String.ofList r).toNat?.map .grpOk
   | 'S' :: r => (nat2 (String.ofList r)).map fun (i, o) => .offStored i o
   | 'A' :: r => (nat3 (String.ofList r)).map fun (i, p, x) => .append i p x
+  | 'N' :: r => (nat3 (String.ofList r)).map fun (i, p, x) => .appendPlain i p x
   | 'E' :: r => (natRes (String.ofList r)).map fun (i, c) => .ended i c
   | 'P' :: r => (nat2 (String.ofList r)).map fun (i, p) => .produceReq i p
   | 'K' :: r => (nat2 (String.ofList r)).map fun (i, p) => .regAck i p
